@@ -36,6 +36,11 @@ def style_catalogue():
                    ignore_kw='ignored', indent='  ')),
         ('mix3', S(ctor=['rep', 'sep'], parens='min', op_breaks=True, stmt_sep='\n\n', class_sep='; ')),
     ]
+    cat += [
+        ('trailing-commas', S(trailing_comma=True)),
+        ('bracket-breaks', S(bracket_breaks=True)),
+        ('bracket-breaks-ctor', S(bracket_breaks=True, trailing_comma=True, ctor=['seq', 'sep', 'rep', 'alt'], parens='min')),
+    ]
     for k in CTOR_KINDS:
         cat.append(('ctor-' + k, S(ctor=[k], parens='min')))
     return cat
@@ -240,6 +245,14 @@ def run_shard(rec):
                 x = ('rep', ('str', 'a'), 0, None)
             run_ast(rec, gast.simple_grammar({'start': ('seq', [x, ('re', '[ab]*', False)])}),
                     work.inputs_for('ab', maxlen), ('rep', m, n), styles)
+    # bounds whose literals differ in digit count (text vs number comparison of the bounds)
+    wide_inputs = ['a' * k + t for k in range(0, 14) for t in ('', 'b')]
+    for m, n in [(2, 10), (9, 12), (10, 11), (0, 10), (10, None), (None, 10), (12, 12), (1, 100), (9, 10), (3, 3)]:
+        idx += 1
+        if not rec.mine(idx):
+            continue
+        x = ('rep', ('str', 'a'), m, n)
+        run_ast(rec, gast.simple_grammar({'start': ('seq', [x, ('re', '[ab]*', False)])}), wide_inputs, ('rep-wide', m, n), styles)
     # random multi-rule grammars, with ignore declarations and classes
     n_random = 25 if quick else 700
     for i in range(n_random):
